@@ -313,6 +313,7 @@ func fwOverlap(c fwCase, nA, nB int) M {
 		rec["rsaOK"] = ok
 		d := sha256.Sum256(body)
 		rec["bodySha"] = fmt.Sprintf("%x:%d", d, len(body))
+		rec["cookieHdr"] = strings.Join(r.Header["Cookie"], " | ")
 	}
 	gen := func(n int, salt byte) []byte {
 		b := make([]byte, n)
@@ -382,6 +383,64 @@ func fwOverlap(c fwCase, nA, nB int) M {
 		out["recv"+k] = rec["bodySha"]
 		out["rsa"+k] = rec["rsaOK"]
 	}
+	// a slow upload: alice's body arrives in two parts (the signer is waiting for it); in between, bob's requests — other cookies —
+	// are handled from start to end. Each backend request carries its own client's cookies, minus the session cookie.
+	w.mu.Lock()
+	w.reached = nil
+	w.cur = &pfStep{Validate: pfOK(), Refresh: pfOK(), Profile: pfReply{Kind: "ok", Groups: []string{"eng"}}, Redeem: pfOK()}
+	w.mu.Unlock()
+	slow := func() (int, string) {
+		conn, err := net.Dial("tcp", addr)
+		if err != nil {
+			return 0, err.Error()
+		}
+		defer conn.Close()
+		conn.SetDeadline(time.Now().Add(30 * time.Second))
+		body := gen(4096, 0x11)
+		fmt.Fprintf(conn, "POST /slow-alice HTTP/1.1\r\nHost: app.x.io\r\nCookie: app_session=alice-secret; %s; theme=dark\r\nContent-Type: application/octet-stream\r\nContent-Length: %d\r\nConnection: close\r\n\r\n", sessVal, len(body))
+		conn.Write(body[:2048])
+		for i := 0; i < 40; i++ {
+			if c2, err := net.Dial("tcp", addr); err == nil {
+				c2.SetDeadline(time.Now().Add(10 * time.Second))
+				fmt.Fprintf(c2, "GET /quick-bob-%d HTTP/1.1\r\nHost: app.x.io\r\nCookie: app_session=bob-secret-%d; %s\r\nConnection: close\r\n\r\n", i, i, sessVal)
+				if resp, err := http.ReadResponse(bufio.NewReader(c2), nil); err == nil {
+					io.Copy(io.Discard, resp.Body)
+					resp.Body.Close()
+				}
+				c2.Close()
+			}
+		}
+		conn.Write(body[2048:])
+		resp, err := http.ReadResponse(bufio.NewReader(conn), nil)
+		if err != nil {
+			return 0, err.Error()
+		}
+		io.Copy(io.Discard, resp.Body)
+		resp.Body.Close()
+		return resp.StatusCode, ""
+	}
+	stS, errS := slow()
+	w.mu.Lock()
+	reached = w.reached
+	w.cur = nil
+	w.mu.Unlock()
+	mixed := []string{}
+	for _, rec := range reached {
+		p, _ := rec["path"].(string)
+		ck, _ := rec["cookieHdr"].(string)
+		want := ""
+		if p == "/slow-alice" {
+			want = "app_session=alice-secret;theme=dark"
+		} else if strings.HasPrefix(p, "/quick-bob-") {
+			want = "app_session=bob-secret-" + strings.TrimPrefix(p, "/quick-bob-")
+		} else {
+			continue
+		}
+		if ck != want {
+			mixed = append(mixed, fmt.Sprintf("%s got Cookie %q, its client sent %q (+ the session cookie)", p, ck, want))
+		}
+	}
+	out["slowStatus"], out["slowErr"], out["slowReached"], out["cookieMixups"] = stS, errS, len(reached), mixed
 	return M{"cfg": c.Cfg, "reqs": []M{}, "overlap": out, "raw": c}
 }
 
